@@ -223,7 +223,7 @@ def run_check(prop, tier):
                     chk = executor_of(mod)(copy.deepcopy(scn), None)
                     if chk.get("violation") and chk["violation"]["rule"] == rule:
                         scn, used = shrinker.shrink(scn, rule, lambda s: executor_of(mod)(s, None),
-                                                    budget=getattr(mod, "SHRINK_BUDGET", 300),
+                                                    budget=getattr(mod, "SHRINK_BUDGET", 500),
                                                     extra_candidates=getattr(mod, "shrink_candidates", None))
                         viol = executor_of(mod)(copy.deepcopy(scn), None)["violation"]
                     else:
